@@ -19,7 +19,8 @@ func c03ValueAlphabet() []float64 {
 }
 
 func c03DurationAlphabet() []time.Duration {
-	return []time.Duration{math.MinInt64, -time.Second, -1, 0, 1, time.Second, time.Second + 1, math.MaxInt64}
+	// (2^53 ns and its neighbour: durations a float64 no longer tells apart)
+	return []time.Duration{math.MinInt64, -time.Second, -1, 0, 1, time.Second, time.Second + 1, 1 << 53, 1<<53 + 1, math.MaxInt64}
 }
 
 // refValueUppers is the reference model of the bucket layout: sort a copy, append +max.
